@@ -30,7 +30,8 @@ class Local(FileSystem):
 
         # a relative expression whose literal prefix names no directory (e.g. "*.txt"
         # or "dir?/part*") has to be walked from the current directory
-        if not any(sep in prefix for sep in os_sep):
+        anchored = not any(sep in prefix for sep in os_sep)
+        if anchored:
             expr = '.' + os.path.sep + expr
             prefix = '.' + os.path.sep + prefix
 
@@ -43,6 +44,10 @@ class Local(FileSystem):
                 path = os.path.join(root, filename)
                 if fnmatch(path, expr) or fnmatch(path, expr + '/part*'):
                     files.append(path)
+        if anchored:
+            # name the files as the expression does, without the "./" that was
+            # added for the walk: readers sort the names of all items together
+            files = [path[2:] for path in files]
         return files
 
     @staticmethod
